@@ -231,7 +231,7 @@ pub fn c13(ctx: &mut Ctx) {
         }
         return;
     }
-    let n = ctx.n(2000, 200_000, 2);
+    let n = ctx.n(2000, 120_000, 2);
     for k in 0..n {
         hold_case(&mut ctx.rep, seed, ctx.shard + k * ctx.nshards, false);
     }
